@@ -97,6 +97,10 @@ func genCase(t *rapid.T) Case {
 		n := rapid.IntRange(2, 12).Draw(t, "narcs")
 		first := rapid.IntRange(0, 2).Draw(t, "a0")
 		second := rapid.IntRange(0, 39).Draw(t, "a1")
+		if first == 2 && rapid.Bool().Draw(t, "joint_iso_itu_arc") {
+			// below joint-iso-itu-t(2) the second arc is not limited to 0..39 (2.999 is the example arc, 2.49 alerting)
+			second = rapid.SampledFrom([]int{40, 47, 48, 49, 127, 128, 999, 16383, 16384}).Draw(t, "a1wide")
+		}
 		c.OID = []int{first, second}
 		for i := 2; i < n; i++ {
 			if rapid.Bool().Draw(t, "largearc") {
